@@ -79,7 +79,7 @@ def _env_objects(kind, r):
 def _learner(kind, r):
     if kind == "toy":
         from props.c01_components import ToyLearner
-        return ToyLearner(r["tag"], r.get("mult", 1), r.get("fp"), r.get("fl"), bool(r.get("params_fail")))
+        return ToyLearner(r["tag"], r.get("mult", 1), r.get("fp"), r.get("fl"), bool(r.get("params_fail")), bool(r.get("info")), bool(r.get("nocopy")))
     t = r["type"]
     if t == "eps":
         from coba.learners import BanditEpsilonLearner
@@ -117,7 +117,7 @@ def _learner(kind, r):
 def _evaluator(kind, r):
     if kind == "toy":
         from props.c01_components import ToyEval
-        return ToyEval(r["tag"], r.get("seed"), r.get("fail_at"), bool(r.get("learn", True)), bool(r.get("params_fail")), r.get("skip_mult"))
+        return ToyEval(r["tag"], r.get("seed"), r.get("fail_at"), bool(r.get("learn", True)), bool(r.get("params_fail")), r.get("skip_mult"), int(r.get("mode", 0)))
     t = r["type"]
     if t == "seq":
         from coba.evaluators import SequentialCB
@@ -318,16 +318,20 @@ def run_once(case, cfg, how="inproc", sched=0, built=None, trace=None, pre=None)
     old_mp = cmp.Multiprocessor
     sink = ListSink()
     try:
+        _ctx_set((NullLogger(), NullCacher(), {}, {}))
+        pre_trace = []
         if pre:
-            _ctx_set((NullLogger(), NullCacher(), {}, {}))
             pb = build(case)
             try:
                 if pre["how"] == "sim" and (pre["cfg"][0] > 1 or pre["cfg"][1] != 0):
-                    cmp.Multiprocessor = make_sim(pre.get("sched", 0))
+                    cmp.Multiprocessor = make_sim(pre.get("sched", 0), pre_trace)
                 pb.exp.run(processes=pre["cfg"][0], maxchunksperchild=pre["cfg"][1], maxtasksperchunk=pre["cfg"][2], seed=pre["seed"])
             finally:
                 cmp.Multiprocessor = old_mp
-        _ctx_set((BasicLogger(sink), NullCacher(), {}, {}))
+        # the same process goes on: only the logger is exchanged, store and learning_info are whatever the session left
+        CobaContext.logger = BasicLogger(sink)
+        if trace is None:
+            trace = []
         b = built or build(case)
         before = [snapshot(l) for l in b.lrns]
         multi = cfg[0] > 1 or cfg[1] != 0
@@ -338,11 +342,22 @@ def run_once(case, cfg, how="inproc", sched=0, built=None, trace=None, pre=None)
         out["lrn_states"] = [[getattr(l, "n", None), getattr(l, "acc", None)] for l in b.lrns]
         out["lrn_modified"] = [x is not None and snapshot(l) != x for l, x in zip(b.lrns, before)]
         out["triples"] = [list(t) for t in b.triples]
+        out["assign"] = dense_assign(trace)
+        out["pre_assign"] = dense_assign(pre_trace)
         out["store_clean"] = "experiment_seed" not in CobaContext.store
         return out
     finally:
         cmp.Multiprocessor = old_mp
         _ctx_set(saved)
+
+
+def dense_assign(trace):
+    """which simulated worker pulled the k-th chunk, workers numbered in order of their first pull"""
+    ids, out = {}, []
+    for ev in trace or []:
+        if ev[0] == "pull":
+            out.append(ids.setdefault(ev[1], len(ids)))
+    return out
 
 
 def snapshot(lrn):
@@ -470,10 +485,11 @@ def observe(case):
         lrns = []
         for l, r in zip(b.lrns, case["lrns"]):
             try:
-                params = json.dumps(_plain(dict(SafeLearner(copy.deepcopy(l)).params)), sort_keys=True)
+                params = json.dumps(_plain(dict(SafeLearner(l).params)), sort_keys=True)
             except Exception:
                 params = None
-            lrns.append({"mult": r.get("mult", 1), "fp": r.get("fp"), "fl": r.get("fl"), "params": params})
+            lrns.append({"mult": r.get("mult", 1), "fp": r.get("fp"), "fl": r.get("fl"), "params": params, "tag": r.get("tag", 0),
+                         "info": bool(r.get("info")), "copyable": not r.get("nocopy")})
         vals = []
         for v, r in zip(b.vals, case["vals"]):
             try:
@@ -481,7 +497,7 @@ def observe(case):
             except Exception:
                 params = None
             vals.append({"seed": r.get("seed"), "fail_at": r.get("fail_at"), "learn": bool(r.get("learn", True)), "params": params,
-                         "skip_mult": r.get("skip_mult")})
+                         "skip_mult": r.get("skip_mult"), "mode": int(r.get("mode", 0))})
         return {"envs": envs, "lrns": lrns, "vals": vals, "triples": [list(t) for t in b.triples]}
     finally:
         _ctx_set(saved)
@@ -531,13 +547,59 @@ def model_view(res):
     ints = []
     for key, rows in res["ints"]:
         for idx, row in rows:
-            ints.append([key[0], key[1], key[2], idx, [row.get("x"), row.get("p"), row.get("n"), row.get("seed")]])
+            ints.append([key[0], key[1], key[2], idx, [row.get("x"), row.get("p"), row.get("n"), row.get("seed")] + ([row["li"]] if row.get("li") is not None else [])])
     exp = res["exp"]
     return {"exp": [exp.get("n_learners"), exp.get("n_environments"), exp.get("seed")] if exp else None,
             "envs": [[i, json.dumps(p, sort_keys=True)] for i, p in res["envs"]],
             "lrns": [[i, json.dumps(p, sort_keys=True)] for i, p in res["lrns"]],
             "vals": [[i, json.dumps(p, sort_keys=True)] for i, p in res["vals"]],
             "ints": ints}
+
+
+def is_leaky(case):
+    """a toy evaluator that flushes learning_info without clearing it first: the components are not process-local clean,
+    so they are outside the quantifier of C01/C03 — only the model's prediction of the leak is checked"""
+    return case["kind"] == "toy" and any(int(r.get("mode", 0)) == 2 for r in case["vals"])
+
+
+def is_plain(case):
+    """no phase-2 feature: the σ-free model of phase 1 must predict the same Result"""
+    return (case["kind"] == "toy" and not any(r.get("info") or r.get("nocopy") for r in case["lrns"])
+            and not any(int(r.get("mode", 0)) for r in case["vals"]))
+
+
+def logged_exceptions(log):
+    return len(markers(log)) + sum("cannot pickle" in l for l in log)
+
+
+def compare_with_model(driver, case, obs, run, o, label=""):
+    """(A) the real run against `runPFrom` of the driver (process state, worker lifetimes, un-copyable learners) and,
+    for plain cases, against the σ-free `run`; (C) model = spec whenever the isolation hypothesis holds"""
+    fails = []
+    picks = [Rng(run["sched"], "picks", i).below(97) for i in range(12)]
+    req = dict(obs, seed=case["seed"], cfg=run["cfg"], picks=picks, assign=o.get("assign", []))
+    if run.get("pre"):
+        req["pre"] = {"seed": run["pre"]["seed"], "cfg": run["pre"]["cfg"], "assign": o.get("pre_assign", []), "picks": []}
+    ans = driver.ask(req)
+    model = ans["model"]
+    mv = model_view(o["result"])
+    where = "%scfg %s (%s)" % (label, run["cfg"], run["how"])
+    for part in ("exp", "envs", "lrns", "vals", "ints"):
+        if mv[part] != model[part]:
+            fails.append(F("A", "%s: table %s of the real Result %s differs from the model's %s" % (
+                where, part, json.dumps(mv[part])[:300], json.dumps(model[part])[:300]), "A:" + part))
+            break
+    if is_plain(case) and ans["model_plain"] != model:
+        fails.append(F("C", "%s: the σ-free model and the process-state model disagree on a plain case" % where, "C:plain"))
+    if ans["hyp"] and ans["model"] != ans["spec"]:
+        fails.append(F("C", "model: run %s differs from resultSP although the components are process-local clean" % (run["cfg"],), "C:run_eq_spec"))
+    if is_plain(case) and ans["model_plain"] != ans["spec_plain"]:
+        fails.append(F("C", "model: σ-free run %s differs from resultS" % (run["cfg"],), "C:run_eq_spec"))
+    if logged_exceptions(o["log"]) != len(ans["log"]):
+        fails.append(F("A", "%s: %d exceptions in the log, the model expects %d" % (where, logged_exceptions(o["log"]), len(ans["log"])), "A:log"))
+    if o["lrn_states"] != ans["heap"]:
+        fails.append(F("A", "%s: learner objects after run %s, model %s" % (where, o["lrn_states"], ans["heap"]), "A:heap"))
+    return fails, ans
 
 
 def diff_tables(a, b):
@@ -726,12 +788,15 @@ def gen_toy(rng, tier, real_p=0.03, fail_bias=1.0, share_bias=1.0):
             r["fl"] = rng.randint(0, 3)
         if rng.chance(0.05 * fail_bias):
             r["params_fail"] = True
+        if rng.chance(0.3):
+            r["info"] = True          # reports through the process-global CobaContext.learning_info
         lrns.append(r)
     vals = []
     for t in range(rng.choice([1, 1, 2, 3])):
         r = {"tag": t, "seed": rng.choice([None, None, 0, 3, 11]), "fail_at": None, "learn": not rng.chance(0.15), "params_fail": rng.chance(0.05)}
         if rng.chance(0.10 * fail_bias):
             r["fail_at"] = rng.randint(0, 3)
+        r["mode"] = rng.choice([0, 0, 0, 1, 1, 1, 1, 2])      # how the evaluator treats learning_info (2 = not process-local clean)
         if rng.chance(0.25):
             # this evaluator legitimately yields no rows for the learners with that mult (often an early learner)
             r["skip_mult"] = lrns[rng.below(max(1, len(lrns) - 1))]["mult"] if rng.chance(0.8) else rng.randint(1, 3)
@@ -757,6 +822,21 @@ def gen_toy(rng, tier, real_p=0.03, fail_bias=1.0, share_bias=1.0):
         if rng.chance(0.25 * share_bias) and k > 1:
             case["triples"].append(list(rng.choice(case["triples"])))   # a duplicated triple
     case["runs"] = gen_runs(rng, tier, real_p, rng.choice([1, 2, 2, 3]), case["seed"])
+    if rng.chance(0.07):
+        # a learner object that cannot be copied (nor pickled): in-process configurations only
+        lrns[rng.below(len(lrns))]["nocopy"] = True
+        case["runs"] = [{"cfg": [1, 0, 0], "how": "inproc", "sched": 0}] + [
+            {"cfg": [1, 0, rng.choice([1, 2, 3])], "how": "inproc", "sched": 0} for _ in range(rng.choice([1, 2]))]
+    if is_leaky(case):
+        # with a leaky evaluator two records for one key differ, the winner would depend on the interleaving: no duplicates
+        for name in ("triples", "pe", "pl", "pv"):
+            if name in case:
+                case[name] = [x for k, x in enumerate(case[name]) if x not in case[name][:k]]
+        for run in case["runs"]:
+            if run["how"] == "real":
+                run["how"] = "sim"
+            if (run.get("pre") or {}).get("how") == "real":
+                run["pre"]["how"] = "sim"
     if rng.chance(0.35):
         case["rerun"] = True
     return case
@@ -890,7 +970,7 @@ def shrink_case(case):
             for fld in ("fail_at", "fp", "fl", "skip_mult", "fail_learn_at"):
                 if r.get(fld) is not None:
                     yield dict(case, **{name: xs[:k] + [dict(r, **{fld: None})] + xs[k + 1:]})
-            for fld in ("params_fail",):
+            for fld in ("params_fail", "info", "nocopy"):
                 if r.get(fld):
                     yield dict(case, **{name: xs[:k] + [dict(r, **{fld: False})] + xs[k + 1:]})
             if name == "envs" and case["kind"] == "toy":
@@ -918,8 +998,15 @@ def feature_tags(case):
             tags.append("lrn:info-then-raises")
         if any(r.get("logged") for r in case["envs"]):
             tags.append("env:logged")
-    elif any(r.get("skip_mult") is not None for r in case["vals"]):
-        tags.append("val:rowless-for-some-learner")
+    else:
+        if any(r.get("skip_mult") is not None for r in case["vals"]):
+            tags.append("val:rowless-for-some-learner")
+        if any(r.get("info") for r in case["lrns"]):
+            tags.append("toy:learner-writes-learning_info")
+        for m in sorted({int(r.get("mode", 0)) for r in case["vals"]}):
+            tags.append("toy:eval-info-mode-%d" % m)
+        if any(r.get("nocopy") for r in case["lrns"]):
+            tags.append("toy:uncopyable-learner")
     return tags
 
 
@@ -950,10 +1037,15 @@ class C01(Property):
     rule = ("an experiment recipe (1-3 toy or built-in environment pipelines incl. shared chunk()/cache() prefixes, shuffle(n=k) fan-out, "
             "raising variants; 1-3 learners; 1-3 evaluators; cross product or explicit tuple list with shared/duplicated objects) and 2-4 "
             "configurations (processes 1-4, maxchunksperchild 0-3, maxtasksperchunk 0-5; in-process, permuting simulator or really spawned "
-            "workers); non-trivial = at least two configurations compared and at least one interaction row recorded")
+            "workers); runs may be preceded by an earlier run of the same session in the same process; toy learners may write "
+            "CobaContext.learning_info, toy evaluators ignore / clear+flush / only flush it (the last = not process-local clean: model "
+            "prediction only), toy learners may be un-copyable; non-trivial = at least two configurations compared and at least one "
+            "interaction row recorded")
     trusted_base = [
-        "components are deterministic functions of their own object state and the seed (evalS); environments are re-readable (C04); "
-        "params do not depend on what a learner has learned",
+        "components are deterministic functions of their own object state, the seed and — since phase 2 — an explicit process state σ "
+        "(hypothesis ProcessLocalClean: outcomes do not depend on σ and leave it clean; forced, see process_state_forced_counterexample; "
+        "coba discharges it by info.clear() at the start of SequentialCB/RejectionCB, a fresh SafeLearner per evaluate and deepcopy — "
+        "not for Logged's inner evaluator = open finding F3); environments are re-readable (C04); params do not depend on what a learner has learned",
         "pickle / deepcopy produce an observationally equal, unshared copy; OS scheduling = any interleaving of the record streams of the chunks "
         "(proved for every permutation of the records; sampled on the code by the permuting simulator and a few really spawned runs)",
         "exactly-once delivery of records through the multiprocessing queues is C08's property",
@@ -1038,9 +1130,12 @@ class C01(Property):
             return {"fails": fails, "nontrivial": False, "tags": tags}
         base = outs[0]["result"]
         known_defect = False
+        leaky = is_leaky(case)
+        if leaky:
+            tags.append("not-process-local-clean(A only)")
         # (B) configuration independence
         for run, o in list(zip(runs, outs))[1:]:
-            d = diff_tables(base, o["result"])
+            d = [] if leaky else diff_tables(base, o["result"])
             if d:
                 sig = "cfg-dependent:" + "+".join(d)
                 ks = known_sig(case, base, o["result"])
@@ -1052,7 +1147,7 @@ class C01(Property):
             if not o["store_clean"]:
                 fails.append(F("A", "experiment_seed left in CobaContext.store after run", "A:store"))
         # (B) a second construct-and-run gives the same Result
-        if case.get("rerun") and time.time() < t_end:
+        if case.get("rerun") and time.time() < t_end and not leaky:
             tags.append("rerun")
             k = len(runs) - 1
             how2 = "sim" if runs[k]["how"] == "real" else runs[k]["how"]
@@ -1088,21 +1183,11 @@ class C01(Property):
         if driver is not None and kind == "toy" and not known_defect:
             obs = observe(case)
             for run, o in zip(runs, outs):
-                picks = [Rng(run["sched"], "picks", i).below(97) for i in range(12)]
-                ans = driver.ask(dict(obs, seed=case["seed"], cfg=run["cfg"], picks=picks))
+                if leaky and (run["how"] == "real" or (run.get("pre") or {}).get("how") == "real"):
+                    continue        # which worker pulled which chunk is only known for the simulator
+                fs, ans = compare_with_model(driver, case, obs, run, o)
+                fails += fs
                 model = ans["model"]
-                mv = model_view(o["result"])
-                for part in ("exp", "envs", "lrns", "vals", "ints"):
-                    if mv[part] != model[part]:
-                        fails.append(F("A", "cfg %s (%s): table %s of the real Result %s differs from the model's %s" % (
-                            run["cfg"], run["how"], part, json.dumps(mv[part])[:300], json.dumps(model[part])[:300]), "A:" + part))
-                        break
-                if ans["model"] != ans["spec"]:
-                    fails.append(F("C", "model: run %s differs from resultS" % (run["cfg"],), "C:run_eq_spec"))
-                if len(markers(o["log"])) != len(ans["log"]):
-                    fails.append(F("A", "cfg %s: %d exceptions in the log, the model expects %d" % (run["cfg"], len(markers(o["log"])), len(ans["log"])), "A:log"))
-                if o["lrn_states"] != ans["heap"]:
-                    fails.append(F("A", "cfg %s: learner objects after run %s, model %s" % (run["cfg"], o["lrn_states"], ans["heap"]), "A:heap"))
                 d = chunk_check(case, run["cfg"][2], ans["chunks"])
                 if d:
                     fails.append(F("A", "maxtasksperchunk %d: %s" % (run["cfg"][2], d), "A:chunks"))
@@ -1217,6 +1302,26 @@ def directed_cases():
                "vals": [{"type": "seq", "record": ["reward", "action"], "seed": None}],
                "mode": "product", "pe": [0, 1], "pl": [0, 1], "pv": [0],
                "runs": [inproc, {"cfg": [1, 0, 1], "how": "inproc", "sched": 0}]})
+    # --- phase 2: the process-state model (toy components, model-predicted)
+    info_lrns = [{"tag": 0, "mult": 1, "info": True, "fl": 1}, {"tag": 1, "mult": 2, "info": True}, {"tag": 2, "mult": 1}]
+    # process-local clean evaluators (mode 1 clears learning_info first), a learner that leaves info behind by raising
+    cs.append({"kind": "toy", "seed": 4, "envs": [{"tag": 0, "xs": [1, 2, 3], "raw": True}, {"tag": 1, "xs": [4, 5], "prefix": [["chunk"]], "branches": [[]]}],
+               "lrns": info_lrns, "vals": [{"tag": 0, "seed": None, "learn": True, "mode": 1}, {"tag": 1, "seed": 2, "learn": True, "mode": 0}],
+               "mode": "product", "pe": [0, 1], "pl": [0, 1, 2], "pv": [0, 1],
+               "runs": [inproc, {"cfg": [2, 1, 1], "how": "sim", "sched": 11}, {"cfg": [1, 2, 0], "how": "sim", "sched": 12, "pre": {"seed": 9, "cfg": [1, 0, 0], "how": "inproc", "sched": 0}},
+                        {"cfg": [2, 0, 0], "how": "real", "sched": 0}], "rerun": True})
+    # NOT process-local clean (mode 2): the model has to predict the leak for every worker assignment / retirement / session
+    cs.append({"kind": "toy", "seed": 4, "envs": [{"tag": 0, "xs": [1, 2, 3], "raw": True}, {"tag": 1, "xs": [4, 5], "raw": True}],
+               "lrns": info_lrns, "vals": [{"tag": 0, "seed": None, "learn": True, "mode": 2}, {"tag": 1, "seed": 2, "learn": True, "mode": 0}],
+               "mode": "product", "pe": [0, 1], "pl": [0, 1, 2], "pv": [1, 0],
+               "runs": [inproc, {"cfg": [1, 0, 2], "how": "inproc", "sched": 0}, {"cfg": [2, 0, 0], "how": "sim", "sched": 13}, {"cfg": [2, 2, 1], "how": "sim", "sched": 14},
+                        {"cfg": [1, 0, 0], "how": "inproc", "sched": 0, "pre": {"seed": 5, "cfg": [1, 0, 0], "how": "inproc", "sched": 0}}]})
+    # a toy learner that cannot be copied, listed for two environments (in-process only)
+    cs.append({"kind": "toy", "seed": 2, "envs": [{"tag": 0, "xs": [1, 2], "raw": True}, {"tag": 1, "xs": [3], "raw": True}],
+               "lrns": [{"tag": 0, "mult": 1, "nocopy": True}, {"tag": 1, "mult": 2}, {"tag": 2, "mult": 3, "nocopy": True}],
+               "vals": [{"tag": 0, "seed": None, "learn": True, "mode": 1}],
+               "mode": "tuples", "triples": [[0, 0, 0], [1, 0, 0], [0, 1, 0], [1, 1, 0], [1, 2, 0]],
+               "runs": [inproc, {"cfg": [1, 0, 1], "how": "inproc", "sched": 0}, {"cfg": [1, 0, 3], "how": "inproc", "sched": 0}]})
     return cs
 
 
